@@ -605,20 +605,33 @@ def _scipy_nnls_itself_wrong(C, d, vmax, x, cert, norm=None):
     by max(b_vector) before passing them to scipy.optimize.nnls").
     norm is None: True iff scipy returns the vector x that the wrapper returned and that vector fails the KKT certificate.
     norm given  : True iff scipy returns the same x and the same norm (rnorm*max(b)), and that norm is not |Cx-d|."""
+    import math
     import numpy as np
     import scipy.optimize
-    if not vmax > 0:
-        return False
-    try:
-        xs, rs = scipy.optimize.nnls(C / vmax, d / vmax)
-    except Exception:  # noqa
-        return False
-    if not np.allclose(xs, x, rtol=1e-9, atol=1e-12):
-        return False
-    if norm is None:
-        return cert.kkt_nnls(C, d, xs) is not None
-    true = float(np.sqrt(((C @ xs - d) ** 2).sum()))
-    return abs(rs * vmax - norm) <= 1e-12 * (1.0 + abs(norm)) and abs(rs * vmax - true) > 1e-9 * (1.0 + true)
+    # the wrapper normalises the stacked system by a positive scale before calling scipy (max(b) in the original
+    # code, the largest |d| rounded up to a power of two since the b <= 0 fix); the problem is scale invariant, so
+    # the solver is tried on every such equivalent scaling
+    amax = float(np.abs(d).max())
+    scales = [1.0]
+    if vmax > 0:
+        scales.append(vmax)
+    if amax > 0:
+        scales += [amax, 2.0 ** math.ceil(math.log2(amax))]
+    for sc in scales:
+        try:
+            xs, rs = scipy.optimize.nnls(C / sc, d / sc)
+        except Exception:  # noqa
+            continue
+        if not np.allclose(xs, x, rtol=1e-9, atol=1e-12):
+            continue
+        if norm is None:
+            if cert.kkt_nnls(C, d, xs) is not None:
+                return True
+            continue
+        true = float(np.sqrt(((C @ xs - d) ** 2).sum()))
+        if abs(rs * sc - norm) <= 1e-12 * (1.0 + abs(norm)) and abs(rs * sc - true) > 1e-9 * (1.0 + true):
+            return True
+    return False
 
 
 def run_case(case):
